@@ -95,3 +95,18 @@ Theorem C07_action_alignment :
                  end).
 Proof. exact FrontAlign.rules_aligned. Qed.
 Print Assumptions C07_action_alignment.
+
+From Coq Require Import NArith Ascii.
+From YG Require Import EmitAction.
+Close Scope Z_scope.
+Open Scope nat_scope.
+
+(* which value a reference to the n-th symbol denotes in the emitted code: cell n of the Dollar slice (C07_values: Dollar is the slice of the rule's symbols), the union field named by the tag of symbol n - and nothing is emitted when n is out of range or the symbol has no tag *)
+Theorem C07_reference_code :
+  forall (ao am : list Ascii.ascii) (rtags : list (list Ascii.ascii)) (ds out : list Ascii.ascii),
+         arg_code ao am rtags ds = Some out <->
+         (exists (k : nat) (tag : list Ascii.ascii),
+            N.to_nat (dig_val 0 ds) = S k /\
+            nth_error rtags k = Some tag /\ tag <> [] /\ out = ao ++ ds ++ am ++ tag).
+Proof. exact EmitAction.arg_code_spec. Qed.
+Print Assumptions C07_reference_code.
